@@ -24,11 +24,16 @@ def unbold(n):
         return n
     if n and n[0] == "H":
         inl = n[2]
-        if len(inl) == 1 and inl[0][0] == "STRONG":
-            return ("H", n[1], inl[0][1])
-        if len(inl) == 1 and inl[0][0] == "EM" and len(inl[0][1]) == 1 and inl[0][1][0][0] == "STRONG":
-            return ("H", n[1], (("EM", inl[0][1][0][1]),))
-        return n
+        # "a heading whose entire content is bold loses the bold": bold nested in bold is still entirely bold, so the
+        # rewrite is applied until the content is no longer one bold span (fixed record 025147b)
+        while len(inl) == 1 and inl[0][0] == "STRONG":
+            inl = inl[0][1]
+        if len(inl) == 1 and inl[0][0] == "EM":
+            inner = inl[0][1]
+            while len(inner) == 1 and inner[0][0] == "STRONG":
+                inner = inner[0][1]
+            inl = (("EM", inner),)
+        return ("H", n[1], inl)
     return tuple(unbold(x) for x in n)
 
 
@@ -82,7 +87,8 @@ class C10(DocProp):
             for _ in range(r.randint(2, 5)):
                 core = r.choice(["alpha beta", "x", "one two three"])
                 form = r.choice(["**{}**", "***{}***", "__{}__", "*{}*", "**{}** tail", "head **{}**", "**a** **b**", "***{}** rest*",
-                                 "*a **{}***", "`{}`", "**{}** ##", "[**{}**](http://x.y)", "**{}**\\", "_**{}**_", "**_{}_**", "{}"])
+                                 "*a **{}***", "`{}`", "**{}** ##", "[**{}**](http://x.y)", "**{}**\\", "_**{}**_", "**_{}_**", "{}",
+                                 "****{}****", "**__{}__**", "__**{}**__"])
                 txt = form.format(core)
                 if r.random() < 0.25 and not txt.endswith("#"):
                     # (a setext heading whose text ends in '#'s loses them when respelled as ATX: C01 territory)
